@@ -38,6 +38,30 @@ fn d_text(s: &str, full: bool) -> Value {
     v
 }
 
+/// "arg 93: number" -> "arg _: number"
+pub fn mask_arg_ids(s: &str) -> String {
+    let b = s.as_bytes();
+    let mut out = String::with_capacity(s.len());
+    let mut i = 0;
+    while i < b.len() {
+        if s[i..].starts_with("arg ") && (i == 0 || !(b[i - 1].is_ascii_alphanumeric() || b[i - 1] == b'_')) {
+            let mut j = i + 4;
+            while j < b.len() && b[j].is_ascii_digit() {
+                j += 1;
+            }
+            if j > i + 4 && j < b.len() && b[j] == b':' {
+                out.push_str("arg _");
+                i = j;
+                continue;
+            }
+        }
+        let ch = s[i..].chars().next().unwrap();
+        out.push(ch);
+        i += ch.len_utf8();
+    }
+    out
+}
+
 fn d_bytes(b: &[u8], full: bool) -> Value {
     let mut v = json!({"h": digest(b), "len": b.len()});
     if full {
@@ -80,7 +104,12 @@ pub fn observe(case: &Value) -> Value {
     }) {
         Err(m) => pan(m),
         Ok(Err(e)) => errs(&e),
-        Ok(Ok(s)) => d_text(&s, full),
+        Ok(Ok(s)) => {
+            // second digest with the numeral after `arg` masked (mir/print.rs prints the raw Symbol id there: finding F22)
+            let mut v = d_text(&s, full);
+            v["hm"] = json!(digest(mask_arg_ids(&s).as_bytes()));
+            v
+        }
     };
     // bytecode listing
     res["bc"] = match guarded(|| {
